@@ -260,7 +260,8 @@ pub fn run_cli(sc: &Scenario, renderer: &str) -> Observation {
             return obs;
         }
         info.dollar_line.extend(at);
-        info.doc_path.insert(d.path.clone(), p.to_string_lossy().into_owned());
+        // (scrut is started in doc_root)
+        info.doc_path.insert(d.path.clone(), if sc.cli.relative_paths { d.path.clone() } else { p.to_string_lossy().into_owned() });
     }
     // simulator scenario: absolute peer paths and snapshot roots
     let mut sim = sc.sim.clone();
@@ -355,13 +356,13 @@ pub fn run_cli(sc: &Scenario, renderer: &str) -> Observation {
     if !sc.cli.prepend.is_empty() {
         args.push("-P".into());
         for p in &sc.cli.prepend {
-            args.push(doc_root.join(p).to_string_lossy().into_owned());
+            args.push(if sc.cli.relative_paths { p.clone() } else { doc_root.join(p).to_string_lossy().into_owned() });
         }
     }
     if !sc.cli.append.is_empty() {
         args.push("-A".into());
         for p in &sc.cli.append {
-            args.push(doc_root.join(p).to_string_lossy().into_owned());
+            args.push(if sc.cli.relative_paths { p.clone() } else { doc_root.join(p).to_string_lossy().into_owned() });
         }
     }
     info.args = args.clone();
@@ -461,6 +462,7 @@ pub fn run_cli(sc: &Scenario, renderer: &str) -> Observation {
                 results: 0,
                 report: Report::None,
                 raw: None,
+                raw_lossy: false,
             })
             .collect();
         by_doc.insert(
@@ -491,6 +493,15 @@ pub fn run_cli(sc: &Scenario, renderer: &str) -> Observation {
                                 t.results += 1;
                                 if t.results == 1 {
                                     t.report = report.clone();
+                                    // failed test cases come with what scrut recorded
+                                    if let Some(o) = it.get("output") {
+                                        let s = |k: &str| o.get(k).and_then(|x| x.as_str()).map(|x| x.as_bytes().to_vec());
+                                        let code = o.get("exit_code").and_then(|x| x.as_str()).and_then(|x| x.parse::<i32>().ok());
+                                        if let (Some(so), Some(se), Some(code)) = (s("stdout"), s("stderr"), code) {
+                                            t.raw = Some(RawOut { stdout: Bytes(so), stderr: Bytes(se), exit: ExitObs::Code { code } });
+                                            t.raw_lossy = true;
+                                        }
+                                    }
                                 }
                                 placed = true;
                             }
